@@ -607,6 +607,8 @@ def check_precompute(ctx, base):
                             g0, g1, ge = cpm_counts(case, base['midx'][c])
                             for key, ev in (('gt0', g0), ('gt1', g1), ('ge1', ge)):
                                 if key == 'ge1' and case['window']:
+                                    if [int(v) for v in o[key][row]] != ev:
+                                        _F26.append(f'ge1 is {[int(v) for v in o[key][row]]}, the number of member cells with CPM >= 1 is {ev}')
                                     continue
                                 if [int(v) for v in o[key][row]] != ev:
                                     prop.append(f'{key} of {c} is {[int(v) for v in o[key][row]]}, direct count {ev}')
@@ -669,7 +671,16 @@ def check_precompute(ctx, base):
         report(ctx, desc, corr, prop, 'work_split', 'Stats.work_split')
 
 
+F26 = 'F26-ge1-counts-cells-just-below-1-cpm'
+_F26 = []
+
+
 def report(ctx, desc, corr, prop, kind, model_fn):
+    if _F26:
+        # the documented count "at least 1 CPM" against the coded threshold log2(CPM+1) > 1 - 1e-6
+        ctx.disagreements_checked += 1
+        ctx.violation(f'{kind}: ' + '; '.join(_F26[:3]), dict(desc, kind=kind, problems=list(_F26), **{'class': F26}))
+        del _F26[:]
     if not corr and not prop:
         return
     ctx.disagreements_checked += 1
@@ -787,6 +798,8 @@ def check_truncate(ctx, base):
                     g0, g1, ge = cpm_counts(case, idxs)
                     for key, ev in (('gt0', g0), ('gt1', g1), ('ge1', ge)):
                         if key == 'ge1' and case['window']:
+                            if [int(v) for v in f[key][row]] != ev:
+                                _F26.append(f'ge1 is {[int(v) for v in f[key][row]]}, the number of member cells with CPM >= 1 is {ev}')
                             continue
                         if [int(v) for v in f[key][row]] != ev:
                             prop.append(f'{key} of {node} is {[int(v) for v in f[key][row]]}, direct count {ev}')
@@ -1060,6 +1073,8 @@ def check_single_file(ctx, idx, rng):
             g0, g1, ge = cpm_counts(case, [i for i, cc in enumerate(cells) if lab[cc] == c])
             for key, ev in (('gt0', g0), ('gt1', g1), ('ge1', ge)):
                 if key == 'ge1' and case['window']:
+                    if [int(v) for v in f[key][row]] != ev:
+                        _F26.append(f'ge1 is {[int(v) for v in f[key][row]]}, the number of member cells with CPM >= 1 is {ev}')
                     continue
                 if [int(v) for v in f[key][row]] != ev:
                     prop.append(f'{key} of {c} is {[int(v) for v in f[key][row]]}, direct count {ev}')
@@ -1117,7 +1132,8 @@ def run(ctx):
         'log2(CPM+1) per cell and gene is a model INPUT: the value the implementation\'s reader and normaliser '
         '(AnnDataRowIterator.get_chunk + CellByGeneMatrix.to_log2CPM_in_place) return for that cell alone',
         'cells with CPM in (1 - 1.4e-6, 1) are counted as ">= 1 CPM" by the code (threshold 1 - 1e-6 in log2 space); such '
-        'values are generated for the correspondence, and the ge1 clause of the direct computation is skipped on them',
+        'values are generated, the ge1 clause of the direct computation is evaluated on them and its failure is the known '
+        'finding ' + F26 + ' (Coq: c09_ge1_exact_refuted)',
         'cell names are unique across the files of one run; n_processors >= 1 and rows_at_a_time >= 1 (0 is checked to be rejected)',
         'a taxonomy none of whose cells is in any file makes the writer raise AttributeError (no worker output): '
         'modelled as an error (E_NOWORK), not claimed as a violation',
